@@ -39,6 +39,7 @@ class P(Prop):
     design_ref = "DESIGN.md section 5, C06; appendix A.2"
     M = "TracklibVerif.Props.C06"
     theorems = [
+        (M, "TV.C06.certificate_sound", "any labelling satisfying the invariants with nothing left to pop is the distance function (labels = minimum over walks; unlabelled iff unreachable)"),
         (M, "TV.C06.forward_invariant", "the loop invariants of run_routing_forward (appendix A.2) are preserved by one iteration (pop the minimum, settle, relax NEXT_EDGES)"),
         (M, "TV.C06.forward_correct", "after run_routing_forward(s) every label is the minimum weight over permitted walks; unlabelled (-1) iff no walk"),
         (M, "TV.C06.shortest_distance_correct", "shortest_distance(s,t) (run stopped when t is popped) = the true distance; sentinel iff t unreachable"),
@@ -48,19 +49,24 @@ class P(Prop):
         (M, "TV.C06.cutoff_table", "all_shortest_distances(cut) maps (s,v) to y iff s is a node, y is the true distance s->v and y <= cut"),
         (M, "TV.C06.prepared_correct", "prepare(cut) + prepared_shortest_distance(s,v): stored value = true distance exactly for pairs within the cut-off"),
         (M, "TV.C06.prepared_twice_correct", "a second prepare(cut2) on the same DISTANCES: stored exactly for pairs within cut1 or cut2, always the true distance"),
+        (M, "TV.C06.pop_smallest_min", "priority_dict.pop_smallest returns the key with the smallest (priority, key) among the current dict entries despite stale heap tuples, removes only it, keeps the heap invariant"),
+        (M, "TV.C06.priority_dict_setitem", "priority_dict.__setitem__ (push or rebuild) sets that entry only and keeps the heap invariant; the constructor establishes it"),
+        (M, "TV.C06.forward_uses_priority_dict", "run_routing_forward written with the explicit priority_dict equals the loop with the abstract extract-min, so every theorem holds for it"),
     ]
     partial = []
-    open_statements = ["priority_dict's heap with lazy deletion is not proved to extract the minimum (priority, key); it is modelled as such and exercised by the correspondence",
+    open_statements = ["heapq (heapify/heappush/heappop) is not modelled: the heap is a list and heappop removes a smallest (priority, key) tuple",
                        "weights are elements of a linearly ordered additive commutative monoid in the theorems; float rounding of sums of non-dyadic weights is outside them"]
     modelled = ("Network.addEdge (NEXT_EDGES by orientation), run_routing_forward in Dijkstra mode (pop by (poids, node id), stop tests "
                 "before recording, 'other end' rule, visite guard, strict < relaxation, output_dict), shortest_distance (pair and list form), "
-                "all_shortest_distances, prepare, prepared_shortest_distance; priority_dict.pop_smallest as 'extract the minimum (priority, key)'")
-    trusted = ["priority_dict (heapq with lazy deletion) is modelled as extract-min by (priority, node id); its bookkeeping is exercised by the correspondence only",
+                "all_shortest_distances, prepare, prepared_shortest_distance; priority_dict (tracklib/core/utils.py): constructor, __setitem__ with the rebuild threshold, "
+                "pop_smallest with lazy deletion, len — as Model/PDict.lean, and the forward loop over it as Model/GraphPD.lean (proved equal to the abstract loop)")
+    trusted = ["heapq is trusted to implement a priority queue of (priority, key) tuples (Python tuple order; Node.__lt__ compares ids)",
                "A* routing mode (routing_mode = 1) is outside the model"]
     rule = ("every multigraph on <= 3 nodes with <= 2 edges as ordered edge lists (quick) and with 3 edges as multisets in shuffled order (thorough), "
             "weights {0,1,2}, orientations {-1,0,1}, self-loops and parallel edges included, node insertion order shuffled; random graphs to 12 nodes / 40 edges "
             "with integer and dyadic weights. Per graph: every ordered pair, cut-offs below/equal/above each distinct distance (a sample of them for the "
-            "large random graphs), all API forms. non-trivial = at least one ordered pair s != t is joined by a walk")
+            "large random graphs), all API forms. Plus random set/pop sequences on priority_dict alone (ties, lowered and raised priorities, pops on empty). "
+            "non-trivial = at least one ordered pair s != t is joined by a walk (graphs) / at least one pop (priority_dict)")
 
     def setup(self):
         self.mods = nc.import_mods()
@@ -94,9 +100,23 @@ class P(Prop):
             allc = nc.cuts_for(dist)
             g["cuts"] = ["none"] + sorted({nc.tok(c) for c in rng.sample(allc, min(3, len(allc)))}, key=Fraction)
             out.append(dict(g, kind="rnd"))
+        # priority_dict on its own: random set / pop sequences with ties, stale entries (lowered and raised priorities), pops on empty
+        for _ in range(1500 if tier == "quick" else 20000):
+            nk = rng.randint(1, 6)
+            init = [[k, rng.randint(0, 3)] for k in rng.sample(range(nk), rng.randint(0, nk))]
+            ops = []
+            for _ in range(rng.randint(1, 25)):
+                if rng.random() < 0.4:
+                    ops.append(["p"])
+                else:
+                    p = rng.choice([0, 1, 1, 2, 3, "1/2", "3/2"])
+                    ops.append(["s", rng.randrange(nk), p])
+            out.append({"kind": "pq", "init": init, "ops": ops})
         return out
 
     def describe(self, case):
+        if case["kind"] == "pq":
+            return {"kind": "pq", "pops": min(10, sum(1 for o in case["ops"] if o[0] == "p"))}
         edges = nc.expand(case)
         ws = [nc.num(e[3]) for e in edges]
         pairs = [(min(e[1], e[2]), max(e[1], e[2])) for e in edges]
@@ -106,12 +126,32 @@ class P(Prop):
                 "parallel": len(set(pairs)) < len(pairs), "one_way": any(e[4] != 0 for e in edges)}
 
     def nontrivial(self, case):
+        if case["kind"] == "pq":
+            return any(o[0] == "p" for o in case["ops"])
         n = case["n"]
         d = nc.floyd_warshall(n, nc.expand(case))
         return any(d[s][t] is not None for s in range(n) for t in range(n) if s != t)
 
     # ---------------------------------------------------------------- implementation
+    def impl_pq(self, case):
+        from tracklib.core.utils import priority_dict
+        with nc.time_limit(3):
+            pd = priority_dict({k: nc.pynum(p) for k, p in case["init"]})
+            res = []
+            for op in case["ops"]:
+                if op[0] == "p":
+                    try:
+                        res.append(str(pd.pop_smallest()))
+                    except IndexError:
+                        res.append("err")
+                else:
+                    pd[op[1]] = nc.pynum(op[2])
+                    res.append(str(len(pd)))
+        return {"res": res}
+
     def impl(self, case):
+        if case["kind"] == "pq":
+            return self.impl_pq(case)
         n = case["n"]
         edges = nc.expand(case)
         dist = nc.floyd_warshall(n, edges)          # only to choose the cut-offs
@@ -135,6 +175,10 @@ class P(Prop):
 
     # ---------------------------------------------------------------- model
     def requests(self, case):
+        if case["kind"] == "pq":
+            init = ";".join("%d,%s" % (k, nc.tok(nc.num(p))) for k, p in case["init"]) or "_"
+            ops = ";".join("p" if o[0] == "p" else "s,%d,%s" % (o[1], nc.tok(nc.num(o[2]))) for o in case["ops"]) or "_"
+            return ["C06.pq %s %s" % (init, ops)]
         n = case["n"]
         edges = nc.expand(case)
         cuts = cut_tokens(case, nc.floyd_warshall(n, edges))
@@ -147,6 +191,7 @@ class P(Prop):
             out.append("C06.all %d %s %s %s" % (n, order, es, c))
         for (c1, c2) in prep_combos(cuts):
             out.append("C06.prep %d %s %s %s %s" % (n, order, es, c1, c2))
+        out.append("C06.pairsPD %d %s %s" % (n, es, cuts[-1]))
         return out
 
     @staticmethod
@@ -157,6 +202,10 @@ class P(Prop):
         return [[none_as if x == "none" else x for x in r.split(",")] for r in rows]
 
     def decode(self, case, replies):
+        if case["kind"] == "pq":
+            if replies[0] == "bad-request":
+                raise ValueError("bad-request")
+            return {"res": [] if replies[0] == "_" else replies[0].split(",")}
         n = case["n"]
         edges = nc.expand(case)
         cuts = cut_tokens(case, nc.floyd_warshall(n, edges))
@@ -173,6 +222,9 @@ class P(Prop):
         for _ in prep_combos(cuts):
             out["prep"].append(self.matrix(replies[i], "big"))
             i += 1
+        # the loop with the explicit priority_dict model (proved equal to the abstract one) must say the same
+        if self.matrix(replies[i], "-1") != out["pairs"][-1]:
+            raise ValueError("runForwardPD differs from runForward: %s" % replies[i])
         return out
 
     def compare(self, case, impl_out, model_out):
@@ -186,6 +238,8 @@ class P(Prop):
             if out["err"] == "err:Skipped":
                 return None     # not evaluated (see netcommon.time_limit); the cases that timed out are the failures
             return "the implementation failed: %s %s" % (out["err"], out.get("detail", ""))
+        if case["kind"] == "pq":
+            return self.spec_pq(case, out)
         n = case["n"]
         edges = nc.expand(case)
         d = nc.floyd_warshall(n, edges)
@@ -228,8 +282,34 @@ class P(Prop):
                             c1, "" if c2 == "-" else " and prepare(cut=%s)" % c2, s, t, out["prep"][k][s][t], want)
         return None
 
+    def spec_pq(self, case, out):
+        ref = {k: nc.num(p) for k, p in case["init"]}
+        if len(out["res"]) != len(case["ops"]):
+            return "%d results for %d operations" % (len(out["res"]), len(case["ops"]))
+        for i, (op, got) in enumerate(zip(case["ops"], out["res"])):
+            if op[0] == "p":
+                if not ref:
+                    if got != "err":
+                        return "op %d: pop_smallest on an empty priority_dict returned %s" % (i, got)
+                    continue
+                want = min(ref, key=lambda k: (ref[k], k))
+                if got != str(want):
+                    return "op %d: pop_smallest returned %s, the smallest (priority, key) is (%s, %d) among %s" % (i, got, ref[want], want, ref)
+                del ref[want]
+            else:
+                ref[op[1]] = nc.num(op[2])
+                if got != str(len(ref)):
+                    return "op %d: len = %s after the assignment, expected %d" % (i, got, len(ref))
+        return None
+
     # ---------------------------------------------------------------- shrinking / search
     def shrink(self, case):
+        if case["kind"] == "pq":
+            for k in range(len(case["ops"])):
+                yield dict(case, ops=case["ops"][:k] + case["ops"][k + 1:])
+            for k in range(len(case["init"])):
+                yield dict(case, init=case["init"][:k] + case["init"][k + 1:])
+            return
         for c in nc.shrink_graph(case):
             yield c
         if "cuts" in case and len(case["cuts"]) > 1:
@@ -240,6 +320,8 @@ class P(Prop):
             yield dict(case, cuts=cut_tokens(case, d))
 
     def mutate(self, case, rng):
+        if case["kind"] == "pq":
+            return
         c = nc.explicit(case)
         for k, e in enumerate(c["edges"]):
             for o in (-1, 0, 1):
